@@ -246,6 +246,14 @@ func (c23) Execute(sc *engine.Scenario) *engine.Result {
 		}
 	}
 	res.Sig(fmt.Sprintf("program/serial=%v/len=%d", sc.Serial, len(expect)/16))
+	{
+		dg := engine.NewDigest()
+		dg.Bytes(m.SerialOut)
+		for _, at := range m.SerialAt {
+			dg.U64(at)
+		}
+		res.Digest = uint64(dg)
+	}
 	return res
 }
 
